@@ -19,12 +19,8 @@ from beartype.roar import BeartypeCallHintViolation, BeartypeDoorHintViolation  
 CONFS = {}
 
 
-def conf_of(is_random, strategy='O1'):
-    from beartype import BeartypeStrategy
-    key = (is_random, strategy)
-    if key not in CONFS:
-        CONFS[key] = BeartypeConf(is_random=is_random, strategy=getattr(BeartypeStrategy, strategy))
-    return CONFS[key]
+def conf_of(is_random, strategy='O1', extra=None):
+    return U.make_conf(is_random, strategy, extra)
 
 
 def py_sat(h, o):
@@ -131,51 +127,66 @@ def snapshot(o, depth=0):
         return ['error', repr(e)]
 
 
-def run_one(hint, hint_py, value, draw, is_random, entry, strategy='O1'):
+def run_one(hint, hint_py, value, draw, is_random, entry, strategy='O1', extra=None, details=False):
     spy = U.Spy()
     labels = []
     obj = U.to_python(value, U.make_spy_classes(spy), labels)
     spy.log.clear()      # constructors of dict subclasses call __setitem__/update
-    conf = conf_of(is_random, strategy)
+    conf = conf_of(is_random, strategy, extra)
     DRAW[0] = draw
-    try:
-        if entry == 'is_bearable':
-            v = is_bearable(obj, hint_py, conf=conf)
-        elif entry == 'die_if_unbearable':
-            try:
+    expected = {'die_if_unbearable': conf.violation_door_type, 'typehint_die': conf.violation_door_type,
+                'param': conf.violation_param_type, 'return': conf.violation_return_type}.get(entry)
+    signal, v, ran = None, None, []
+    with warnings.catch_warnings(record=True) as wlist:
+        warnings.simplefilter('always')
+        try:
+            if entry == 'is_bearable':
+                v = is_bearable(obj, hint_py, conf=conf)
+            elif entry == 'die_if_unbearable':
                 die_if_unbearable(obj, hint_py, conf=conf)
                 v = True
-            except BeartypeDoorHintViolation:
-                v = False
-        elif entry == 'typehint':
-            v = TypeHint(hint_py).is_bearable(obj, conf=conf)
-        elif entry == 'param':
-            def f(x):
-                return None
-            f.__annotations__ = {'x': hint_py}
-            g = beartype(conf=conf)(f)
-            try:
+            elif entry == 'typehint':
+                v = TypeHint(hint_py).is_bearable(obj, conf=conf)
+            elif entry == 'typehint_die':
+                TypeHint(hint_py).die_if_unbearable(obj, conf=conf)
+                v = True
+            elif entry == 'param':
+                def f(x):
+                    ran.append(1)
+                    return None
+                f.__annotations__ = {'x': hint_py}
+                g = beartype(conf=conf)(f)
                 g(obj)
                 v = True
-            except BeartypeCallHintViolation:
-                v = False
-        elif entry == 'return':
-            def f(x):
-                return x
-            f.__annotations__ = {'return': hint_py}
-            g = beartype(conf=conf)(f)
-            try:
-                g(obj)
-                v = True
-            except BeartypeCallHintViolation:
-                v = False
-        verdict = 'T' if v else 'F'
-    except Exception as e:  # anything that is not a verdict
-        verdict = 'exc:' + type(e).__name__
+            elif entry == 'return':
+                def f(x):
+                    ran.append(1)
+                    return x
+                f.__annotations__ = {'return': hint_py}
+                g = beartype(conf=conf)(f)
+                v = g(obj) is obj
+        except Exception as e:  # noqa
+            signal = e
+    info = None
+    if signal is not None:
+        verdict = 'F' if (expected is not None and type(signal) is expected) else 'exc:' + type(signal).__name__
+        if details:
+            info = {'kind': 'raise', 'cls': type(signal).__name__, 'message': str(signal)[:1500],
+                    'culprit0': bool(getattr(signal, 'culprits', None)) and signal.culprits[0] is obj,
+                    'ran': len(ran)}
+    else:
+        mine = [w for w in wlist if expected is not None and issubclass(expected, Warning) and w.category is expected]
+        if mine:
+            verdict = 'F' if v else 'exc:warned_and_failed'
+            if details:
+                info = {'kind': 'warn', 'cls': mine[0].category.__name__, 'message': str(mine[0].message)[:1500],
+                        'culprit0': None, 'ran': len(ran), 'count': len(mine)}
+        else:
+            verdict = 'T' if v else 'F'
     log = list(spy.log)
     after = snapshot(obj)
     fresh = snapshot(U.to_python(value))
-    return {'verdict': verdict, 'trace': tokens(log), 'reprs': spy.reprs,
+    return {'verdict': verdict, 'signal': info, 'trace': tokens(log), 'reprs': spy.reprs,
             'mutations': [x for x in log if x[0].startswith('MUTATE')],
             'intact': after == fresh or _same_modulo_spy(after, fresh)}
 
@@ -198,15 +209,22 @@ def main():
         # the iteration order those very objects have (hash collisions make set order depend
         # on insertion order, so the re-ordered IR must not be used to rebuild the objects)
         res = {'runs': [], 'sat': None, 'value_norm': U.iteration_order(case['value'])}
+        hand_py = U.hint_to_python(case['hand_hint']) if 'hand_hint' in case else None
+        rewritten = bool((case.get('conf') or {}).get('ov') or (case.get('conf') or {}).get('tower'))
         try:
-            res['sat'] = bool(py_sat(case['hint'], U.to_python(case['value'])))
+            if not rewritten or 'hand_hint' in case:
+                res['sat'] = bool(py_sat(case.get('hand_hint', case['hint']), U.to_python(case['value'])))
         except Exception as e:
             res['sat_error'] = repr(e)
         for draw in case['draws']:
             per = {}
             for entry in case.get('entries', ['is_bearable']):
                 per[entry] = run_one(case['hint'], hint_py, case['value'], draw, case['is_random'], entry,
-                                     case.get('strategy', 'O1'))
+                                     case.get('strategy', 'O1'), case.get('conf'), bool(case.get('details')))
+            if 'hand_hint' in case:
+                # the same check with the hints rewritten by hand, under the default configuration
+                per['hand'] = run_one(case['hand_hint'], hand_py, case['value'], draw, case['is_random'],
+                                      'is_bearable', case.get('strategy', 'O1'), None)
             res['runs'].append(per)
         out.append(res)
     print(json.dumps(out))
